@@ -557,3 +557,110 @@ def run_argflow(P, rep, rule="R-ARGFLOW"):
         rep.ok(rule, "if mode", "-", "if/elsif build Conditional { mode: true }")
     else:
         rep.viol(rule, "if mode", "-", "if builds Conditional with mode %s" % ifm)
+
+
+# ---------------------------------------------------------------------------------------
+# R-RANGE / R-EMPTYOK
+
+def run_range(P, rep, rule="R-RANGE"):
+    """An integer range (a..b) is materialised as the inclusive range of its two bounds; a guard comparing the
+    bounds for emptiness must be strict (a > b): `>=`/`==` would drop the one-element range (a..a)."""
+    fns = [f for f in P.fns.values() if f.key == "<liquid_lib::stdlib::blocks::for_block::Range>::evaluate"]
+    if len(fns) != 1:
+        rep.anchor_missing(rule, "Range::evaluate")
+        return
+    fn = fns[0]
+    from origins import backward_slice
+    incl = False
+    for b in fn.blocks:
+        for st in b["s"]:
+            if st[0] == "a" and st[2]["k"] == "agg" and st[2].get("id") == "core::ops::range::RangeInclusive":
+                incl = True
+        t = b["t"]
+        if t["k"] == "call" and t.get("f") and t["f"]["name"].endswith("RangeInclusive::<Idx>::new"):
+            incl = True
+    probs = []
+    if not incl:
+        excl = any(st[0] == "a" and st[2]["k"] == "agg" and st[2].get("id") == "core::ops::range::Range" for b in fn.blocks for st in b["s"])
+        probs.append("the range is not materialised as an inclusive range of its bounds%s" % (" (a half-open a..b drops the last element)" if excl else ""))
+    # comparisons between the two bounds (payloads .0 and .1 of Range::Counted)
+    def bound_of(local):
+        locs, calls = backward_slice(fn, local)
+        fields = set()
+        for l in locs:
+            for b in fn.blocks:
+                for st in b["s"]:
+                    if st[0] == "a" and st[1][0] == l:
+                        rv = st[2]
+                        pl = rv.get("p") or (rv["o"][1] if "o" in rv and rv["o"][0] in ("c", "m") else None)
+                        if pl:
+                            fs = [p[1] for p in pl[1] if p[0] == "f"]
+                            if any(p[0] == "v" for p in pl[1]) and fs:
+                                fields.add(fs[-1])
+        return fields
+    arith = []
+    for b in fn.blocks:
+        for st in b["s"]:
+            if st[0] == "a" and st[2]["k"] == "bin":
+                op = st[2]["op"].replace("WithOverflow", "")
+                la, lb = op_local(st[2]["a"]), op_local(st[2]["b"])
+                if la and lb:
+                    fa, fb = bound_of(la[0]), bound_of(lb[0])
+                    if fa and fb and fa != fb:
+                        if op in ("Ge", "Le", "Eq", "Ne"):
+                            probs.append("the bounds are compared with `%s`: a guard for the empty range must be strict, otherwise (n..n) selects nothing" % op)
+                        elif op in ("Sub", "Add"):
+                            arith.append(op)
+    for bi, t in P.calls(fn):
+        f = t.get("f")
+        if f and f["id"].startswith("core::cmp::Partial") and len(t["args"]) == 2:
+            m = f["id"].rsplit("::", 1)[1]
+            la, lb = op_local(t["args"][0]), op_local(t["args"][1])
+            if la and lb:
+                fa, fb = bound_of(la[0]), bound_of(lb[0])
+                if fa and fb and fa != fb and m in ("ge", "le", "eq", "ne"):
+                    probs.append("the bounds are compared with `%s`: a guard for the empty range must be strict, otherwise (n..n) selects nothing" % m)
+    if probs:
+        for p in probs:
+            rep.viol(rule, "Range::evaluate", P.where(fn), p)
+    else:
+        rep.ok(rule, "Range::evaluate", P.where(fn), "start..=stop over the evaluated bounds; no non-strict comparison of the bounds")
+
+
+def run_empty_ok(P, rep, rule="R-EMPTYOK"):
+    """Between the selection of the window (iter_array) and the element loop nothing can fail: an empty selection
+    must reach the else-branch / Ok(()) without an error that depends on loop quantities."""
+    FB = "liquid_lib::stdlib::blocks::for_block::"
+    R = " as liquid_core::runtime::renderable::Renderable>::render_to"
+    for nm in ("For", "TableRow"):
+        fn = P.fn_by_key("<" + FB + nm + R)
+        sel = [bi for bi, t in P.calls(fn) if t.get("f") and t["f"]["id"].endswith("for_block::iter_array")]
+        ls = loops(P, fn)
+        body = [(bi, t) for bi, t in render_calls(P, fn) if loop_header(P, fn, bi) is not None]
+        if len(sel) != 1 or not body:
+            rep.viol(rule, nm, P.where(fn), "selection call / element loop not found")
+            continue
+        h = loop_header(P, fn, body[0][0])
+        # blocks on paths from the selection to the loop header (not through the header)
+        region = P.reach(fn, P.succ(fn)[sel[0]], stop={h})
+        bad = []
+        for bi in sorted(region):
+            b = fn.blocks[bi]
+            for st in b["s"]:
+                if st[0] == "a" and st[1][0] == 0 and not st[1][1] and st[2]["k"] == "agg" and st[2].get("vname") == "Err":
+                    bad.append(st[3])
+            t = b["t"]
+            if t["k"] == "call" and t.get("f"):
+                if t["f"]["id"] == "core::ops::try_trait::FromResidual::from_residual" and t["d"][0] == 0:
+                    # which call's failure is propagated here?  allow the `?` on the else-branch render (For) only
+                    bad.append(t["line"])
+                if t["f"]["id"].endswith("::into_err") and t["d"][0] == 0:
+                    bad.append(t["line"])
+        # the else render of `for` legitimately propagates its own error: remove lines of render_to `?`
+        else_lines = {t["line"] for bi, t in render_calls(P, fn) if loop_header(P, fn, bi) is None}
+        bad = [l for l in bad if not any(abs(l - e) <= 3 for e in else_lines)]
+        if bad:
+            rep.viol(rule, nm, P.where(fn, bad[0]),
+                     "an error can be returned after the window was selected and before the element loop (line %s): an empty selection would fail instead of rendering nothing/else" % bad[0])
+        else:
+            rep.ok(rule, nm, P.where(fn), "no failing exit between iter_array and the element loop")
